@@ -1,4 +1,4 @@
-\* quick: 2 calls x 2 connections, 1 noise packet (pong | unknown id | duplicate | other)
+\* run twice (spec/LiteClient.tla and spec/proofs/typed/LiteClient.tla under spec/mc/LiteClient_MC.tla, no symmetry, one worker): the numbers of distinct states must agree
 CONSTANTS
   Calls = {c1, c2}
   NConns = 2
@@ -9,7 +9,6 @@ CONSTANTS
   StrictRst = TRUE
   MaxBacklog = 3
 SPECIFICATION Spec
-SYMMETRY Sym
 VIEW View
 CONSTRAINT Bounded
 INVARIANTS TypeOK OwnAnswer ChanOwn ReaderNeverBlocks RegisteredWhileWaiting NoLeakAtEnd StatusLink
